@@ -47,7 +47,27 @@ func memMapField(preset *Term) *Term {
 		}
 	}
 	if found == nil {
-		return nil
+		// the map kept inside a helper structure of the store (a locked-map type, possibly generic): one level down
+		var hit *Term
+		for i := 0; i < st.NumFields(); i++ {
+			ft := st.Field(i).Type()
+			if p, ok := ft.Underlying().(*types.Pointer); ok {
+				ft = p.Elem()
+			}
+			inner, ok := ft.Underlying().(*types.Struct)
+			if !ok {
+				continue
+			}
+			for j := 0; j < inner.NumFields(); j++ {
+				if _, isMap := inner.Field(j).Type().Underlying().(*types.Map); isMap {
+					if hit != nil {
+						return nil
+					}
+					hit = mk("field", inner.Field(j).Name(), 0, inner.Field(j).Type(), mk("field", st.Field(i).Name(), 0, st.Field(i).Type(), preset))
+				}
+			}
+		}
+		return hit
 	}
 	return mk("field", found.Name(), 0, found.Type(), preset)
 }
